@@ -223,3 +223,159 @@ for swp, attrs in ((GI, dict(kind='full', has_QI=True, has_QE=False)),
     CONTRACTS.append(_mk(Integrate, 'integrate', swp, **attrs))
     CONTRACTS.append(_mk(UpdateNodes, 'update_nodes', swp, **attrs))
     CONTRACTS.append(_mk(EndPoint, 'compute_end_point', swp, **attrs))
+
+
+# ------------------------------------------------------------------------------------------ IMEX with mass matrix
+MASS = ('imex_1st_order_mass.py', 'imex_1st_order_mass')
+
+
+class MassUpdateNodes(UpdateNodes):
+    """(M - dt*QI x A_I) U_new = M u0 + dt(Q-QD) F(U_old) + tau on the finest level; on coarser levels u0 enters as it is
+    (the restricted M u0 is supplied through tau / the transfer class)."""
+
+    sweeper = MASS
+    name = 'imex_1st_order_mass.update_nodes'
+    target = (SW + MASS[0], 'imex_1st_order_mass.update_nodes')
+    kind = 'imex'
+    has_QI = True
+    has_QE = True
+    always_solve = True
+    stubs = _SweepBase.stubs + ('Problem.apply_mass_matrix [linear map, argument unchanged]',)
+
+    def instances(self, tier):
+        return [dict(M=M, tau=t, level_index=li) for M in self.Ms(tier) for t in (False, True) for li in (0, 1)]
+
+    def build(self, inst, mk):
+        st = super().build(inst, mk)
+        st.L.level_index = inst['level_index']
+        return st
+
+    def rhs_expected(self, st, m, wrong=None):
+        r = super().rhs_expected(st, m, wrong)
+        if st.L.level_index == 0:
+            r = r - st.old_u[0] + st.L.prob.apply_mass_matrix(st.old_u[0])
+        return r
+
+
+class MassEndPoint(EndPoint):
+    sweeper = MASS
+    name = 'imex_1st_order_mass.compute_end_point'
+    target = (SW + MASS[0], 'imex_1st_order_mass.compute_end_point')
+    kind = 'imex'
+    has_QI = True
+    has_QE = True
+    expected_exceptions = (NotImplementedError,)
+
+    def post(self, st, old, result, exc):
+        copy_mode = st.inst['quad'] == 'RADAU-RIGHT' and not st.inst['coll_update']
+        if copy_mode:
+            yield from super().post(st, old, result, exc)
+        else:
+            # the mass sweeper refuses a quadrature end point instead of silently returning something else
+            yield 'quadrature_mode_rejected', isinstance(exc, NotImplementedError)
+            yield from frame_clauses(old, snapshot({'L': st.L}), frame=[])
+
+    def canary(self, st, old, result, exc):
+        copy_mode = st.inst['quad'] == 'RADAU-RIGHT' and not st.inst['coll_update']
+        if copy_mode:
+            yield from super().canary(st, old, result, exc)
+        else:
+            yield 'canary:returns_normally', exc is None
+
+
+CONTRACTS += [MassUpdateNodes, MassEndPoint]
+
+
+# ------------------------------------------------------------------------------------------ multi-implicit
+MI = ('multi_implicit.py', 'multi_implicit')
+
+
+class MultiImplicitBase(_SweepBase):
+    sweeper = MI
+    kind = 'comp2'
+    has_QI = False
+    has_QE = False
+
+    def mk_level(self, inst, mk):
+        L = super().mk_level(inst, mk)
+        M = inst['M']
+        L.sweep.Q1 = mk.matrix('L.Q1', M + 1, M + 1, lower)
+        L.sweep.Q2 = mk.matrix('L.Q2', M + 1, M + 1, lower)
+        return L
+
+
+class MIIntegrate(MultiImplicitBase, Integrate):
+    name = 'multi_implicit.integrate'
+    target = (SW + MI[0], 'multi_implicit.integrate')
+
+
+class MIEndPoint(MultiImplicitBase, EndPoint):
+    name = 'multi_implicit.compute_end_point'
+    target = (SW + MI[0], 'multi_implicit.compute_end_point')
+
+
+class MIUpdateNodes(MultiImplicitBase):
+    """two successive implicit solves per node:
+         (1)  u* - dt*Q1[m,m] F1(u*) = u0 + dt sum_j (Q - Q1)[m,j] F1_old_j + dt sum_j Q[m,j] F2_old_j + dt sum_{j<m} Q1[m,j] F1_new_j + tau_m
+         (2)  u' - dt*Q2[m,m] F2(u') = u* - dt sum_j Q2[m,j] F2_old_j + dt sum_{j<m} Q2[m,j] F2_new_j"""
+
+    name = 'multi_implicit.update_nodes'
+    target = (SW + MI[0], 'multi_implicit.update_nodes')
+
+    def instances(self, tier):
+        return [dict(M=M, tau=t) for M in self.Ms(tier) for t in (False, True)]
+
+    def build(self, inst, mk):
+        L = self.mk_level(inst, mk)
+        return State(L=L, M=inst['M'], call=L.sweep.update_nodes)
+
+    def post(self, st, old, result, exc):
+        L, M, sw, P = st.L, st.M, st.L.sweep, st.L.prob
+        dt, Q = L.dt, sw.coll.Qmat
+        yield 'returns_normally', exc is None
+        if exc is not None:
+            return
+        yield 'two_solves_per_node', len(P.solves) == 2 * M
+        if len(P.solves) != 2 * M:
+            return
+        for m in range(M):
+            tm = L.time + dt * sw.coll.nodes[m]
+            s1, s2 = P.solves[2 * m], P.solves[2 * m + 1]
+            r1 = cp(st.old_u[0])
+            for j in range(1, M + 1):
+                r1 += dt * Q[m + 1, j] * ftot(st.old_f[j]) - dt * sw.Q1[m + 1, j] * st.old_f[j].comp1
+            for j in range(1, m + 1):
+                r1 += dt * sw.Q1[m + 1, j] * L.f[j].comp1
+            if st.old_tau[m] is not None:
+                r1 += st.old_tau[m]
+            yield f'node{m + 1}:solve1_is_component1', getattr(s1, 'which', None) == 1
+            yield f'node{m + 1}:solve1_rhs', veq(s1.rhs, r1)
+            yield f'node{m + 1}:solve1_factor', seq(s1.factor, dt * sw.Q1[m + 1, m + 1])
+            yield f'node{m + 1}:solve1_time', seq(s1.t, tm)
+            r2 = cp(s1.s)
+            for j in range(1, M + 1):
+                r2 -= dt * sw.Q2[m + 1, j] * st.old_f[j].comp2
+            for j in range(1, m + 1):
+                r2 += dt * sw.Q2[m + 1, j] * L.f[j].comp2
+            yield f'node{m + 1}:solve2_is_component2', getattr(s2, 'which', None) == 2
+            yield f'node{m + 1}:solve2_rhs', veq(s2.rhs, r2)
+            yield f'node{m + 1}:solve2_factor', seq(s2.factor, dt * sw.Q2[m + 1, m + 1])
+            yield f'node{m + 1}:solve2_time', seq(s2.t, tm)
+            yield f'node{m + 1}:value_is_solve2', veq(L.u[m + 1], s2.s)
+            er = P.find_eval(L.f[m + 1])
+            yield f'f{m + 1}:is_eval_f', er is not None
+            if er is not None:
+                yield f'f{m + 1}:at_new_u', veq(er.u, L.u[m + 1])
+                yield f'f{m + 1}:at_node_time', seq(er.t, tm)
+        yield 'status.updated', L.status.updated is True
+        yield from frame_clauses(old, snapshot({'L': L}),
+                                 frame=[f'L.u[{m}]' for m in range(1, M + 1)] + [f'L.f[{m}]' for m in range(1, M + 1)]
+                                 + ['L.status.updated', 'L.prob'])
+
+    def canary(self, st, old, result, exc):
+        P, M = st.L.prob, st.M
+        if len(P.solves) == 2 * M:
+            yield 'canary:solve2_rhs_is_solve1_rhs', veq(P.solves[1].rhs, P.solves[0].rhs)
+
+
+CONTRACTS += [MIIntegrate, MIUpdateNodes, MIEndPoint]
